@@ -185,6 +185,15 @@ func (e *engine) findSeams() {
 
 func (e *engine) rawFieldOK(heap string) bool {
 	for _, pc := range e.contracts {
+		// `rawtype T`: every *T is an integer-made pointer (cells holding a *T are raw too)
+		for rf := range pc.rawField {
+			if strings.HasPrefix(rf, "@type:") {
+				short := pc.pkgPath[strings.LastIndex(pc.pkgPath, "/")+1:]
+				if heap == "E_P"+short+"_"+rf[6:] {
+					return true
+				}
+			}
+		}
 		for rf := range pc.rawField {
 			// heap is H_<pkg>_<Type>_<field>
 			parts := strings.SplitN(rf, ".", 2)
@@ -322,7 +331,18 @@ func (e *engine) contractFor(f *ssa.Function) *funcContract {
 		}
 		return nil
 	}
-	return pc.funcs[funcKey(f)]
+	if fc := pc.funcs[funcKey(f)]; fc != nil {
+		return fc
+	}
+	// no contract in its own package's file: a (trusted) view of the function stated in
+	// another package's file as `func pkg.Name(...)`
+	key := f.Pkg.Pkg.Name() + "." + funcKey(f)
+	for _, opc := range e.contracts {
+		if fc := opc.funcs[key]; fc != nil {
+			return fc
+		}
+	}
+	return nil
 }
 
 // ifaceContract: contract for an interface method, declared as
